@@ -2,7 +2,7 @@
 # usage: tools/confirm_seed.sh <prop> <A|B>     (works inside the agent's scratch worktree /tmp/wt-<prop>)
 # Confirms independently: patch applies, crate builds in 3 feature configs (+hooks on), the existing suite
 # passes with the change, the demo fails with the change and passes without. Prints one summary line.
-P=$1; X=$2; WT=/tmp/wt-$P; OUT=$WT/out/$X
+P=$1; X=$2; WT=${WTPREFIX:-/tmp/wt}-$P; OUT=$WT/out/$X
 export CARGO_TARGET_DIR=$WT/target CARGO_NET_OFFLINE=true
 cd $WT || exit 2
 git checkout -q -- . 2>/dev/null
